@@ -18,16 +18,16 @@ CHECKS = {
  "C17": dict(
    technique="TLA+ PathInterp + Split action (state reconstructed from stored segments) model-checked by TLC (invariant Reconstruct, action property SplitInvisible); every cut history replayed through +, +=, parse, segment+str, Path+Path, Path+Shape",
    text="TLC proves on the bounded model that the interpreter state is a function of the stored segments (Reconstruct) so a split at any command boundary is invisible, and enumerates every behaviour x every set of cut positions; each is executed on the real Path by every append operator and compared with the specification's unsplit segments.",
-   note="Trusted: TLC, PathInterp.tla, projection code. Path+Shape compares the appended tail with Path(shape) (C06 owns the decomposition).",
+   note="Trusted: TLC, PathInterp.tla, projection code. Path+Shape compares the appended tail with abs(Path(shape)) (C06 owns the decomposition); operands carrying a transform of their own are included.",
    design="5/C17"),
  "C16": dict(
    technique="TLA+ geometry abstraction PathOps (sub-path rule, Mirror, MirrorSub, integer affine maps) model-checked by TLC (Involution, ClosedStays, OnlyThatSub, NoPointLost); every shape x operation history replayed on real Path objects; plus TLC trace validation (Trace_C16/PathEdit) of recorded edit histories of 8-40 operations",
-   text="Binding B: a real Path is driven through seeded random histories of builder calls, reverse(), subpath(i).reverse() and lazily applied or reified affine maps; the integer geometry logged after every operation is recomputed step by step by TLC with PathOps/PathEdit (closed sub-paths as cycles), with a corruption self-test. Binding A: TLC enumerates every path shape of <= MaxSegs segments over M L Q C A Z (incl. zero-length closes, sub-paths without their own move, fragments) and every history of reverse / subpath-reverse / integer affine map up to MaxOps, carrying the expected geometry; the real path built from segment objects is driven through the same history and its projected geometry compared (closed sub-paths up to cyclic rotation).",
-   note="Trusted: TLC, PathOps.tla, the ~40-line Python projection of a real Path onto the abstraction. Arcs compared through the library's Arc constructor. Two known-finding classes (paths whose sub-paths lack their own move) are reported as KNOWN-FINDING; the well-formed class is fully guarded.",
+   text="Binding B: a real Path is driven through seeded random histories of builder calls, reverse(), subpath(i).reverse() and lazily applied or reified affine maps; the integer geometry logged after every operation is recomputed step by step by TLC with PathOps/PathEdit (closed sub-paths as cycles), with a corruption self-test. Binding A: TLC enumerates every path shape of <= MaxSegs segments over M L Q C A Z (incl. zero-length closes, sub-paths without their own move, fragments) and every history of reverse / subpath-reverse / integer affine map up to MaxOps, carrying the expected geometry; the real path built from segment objects is driven through the same history and its projected geometry compared (closed sub-paths up to cyclic rotation). Shapes include quarter ellipses between lattice points (end points on the axes); every well-formed shape is also built by parsing its relative path-data spelling.",
+   note="Trusted: TLC, PathOps.tla, the ~40-line Python projection of a real Path onto the abstraction. Arcs compared through the library's Arc constructor AND with the SVG end-point parameterisation written out in the harness. Two known-finding classes (Path.reverse() over paths whose sub-paths lack their own move, view reversal next to a move-less sub-path) are reported as KNOWN-FINDING; the well-formed class and view reversal of leading fragments are fully guarded.",
    design="5/C16"),
  "C07": dict(
    technique="TLA+ writer spec PathWrite with the law Interp(Write(p,relative,smooth)) = p model-checked by TLC over PathInterp behaviours (plus adversarial stale-smooth cases and an arc family); each state written by the real d()/str()/Subpath.d() in 9 option pairs, re-parsed and compared with the spec's segments",
-   text="TLC checks the round-trip law on the writer/interpreter design for every behaviour of the bounded model and supplies the cases: behaviours with as-parsed relative/smooth flags, curves that look smooth w.r.t. a no-longer-adjacent curve, every lattice chord x radii (too small / large) x rotation x flags, object-built shapes with sub-paths lacking their own move. The real library writes each in all nine (relative, smooth) modes and in seeded decimal units, re-parses, and must reproduce kinds, count and geometry to 12 significant digits (arc tolerance scaled by the F.6.6 conditioning). Also long random conforming data (the generator of C01's TLC-validated traces) through all nine option pairs.",
+   text="TLC checks the round-trip law on the writer/interpreter design for every behaviour of the bounded model and supplies the cases: behaviours with as-parsed relative/smooth flags, curves that look smooth w.r.t. a no-longer-adjacent curve, every lattice chord x radii (too small / large) x rotation x flags, object-built shapes with sub-paths lacking their own move. The real library writes each in all nine (relative, smooth) modes and in seeded decimal units, re-parses, and must reproduce kinds, count and geometry to 12 significant digits (arc tolerance scaled by the F.6.6 conditioning). Also long random conforming data (the generator of C01's TLC-validated traces) through all nine option pairs, every behaviour with its smooth joints made almost smooth (3e-8 off), and consecutive points 1e-5..1e-14 apart (exponent-form offsets in relative output).",
    note="Trusted: TLC, PathWrite.tla/PathInterp.tla, unit-equivariance of interpretation, the comparator (~60 lines, incl. F.6.6 Lambda for the arc tolerance). Known finding: 6-digit '%G' radii (pinned by test_svg_example14). Arcs with |sweep| > tau are not written by the library and are not generated.",
    design="5/C07"),
  "C04": dict(
@@ -57,13 +57,13 @@ CHECKS = {
    design="5/C11"),
  "C02": dict(
    technique="TLA+ Seg/Affine over exact rationals (de Casteljau points, arcs as centre + conjugate semi-diameters + parameter interval); TLC enumerates segments x map histories with invariants Compose/EndpointsMap/PointsMap; each replayed through 9 API forms and compared point by point",
-   text="TLC enumerates the segment table (lines, quadratic/cubic Beziers incl. zero-length / coincident / collinear controls, circular and elliptical arcs with several rotations, extents, directions) x every sequence of <= 2 matrices from the class table (translation, rotations, reflections, uniform/anisotropic scales, shears, rotated anisotropic, ill-conditioned, general); the spec's image of every defining point and of the arc frame is the oracle at 9 parameters t. Forms: seg*M, seg*=M, seg*(A*B), seg*'matrix()', abs(path*M), path*=M+reify, subpath*=M, incrementally built and joined paths reified in place; plus every shape of MC_C06 x matrix (decomposition of shape*M = M applied to the untransformed decomposition).",
+   text="TLC enumerates the segment table (lines, quadratic/cubic Beziers incl. zero-length / coincident / collinear controls, circular and elliptical arcs with several rotations, extents, directions) x every sequence of <= 2 matrices from the class table (translation, rotations, reflections, uniform/anisotropic scales, shears, rotated anisotropic, ill-conditioned, general); the spec's image of every defining point and of the arc frame is the oracle at 9 parameters t. Forms: seg*M, seg*=M, seg*(A*B), seg*'matrix()', abs(path*M), path*=M+reify, subpath*=M, incrementally built and joined paths reified in place; plus every shape of MC_C06 x matrix (decomposition of shape*M = M applied to the untransformed decomposition); every line case also as a zero-radius and as a zero-length arc multiplied in place.",
    note="Trusted: TLC, Rat/Affine/Seg.tla, the on_param comparator (c + u cos th + v sin th in floats from exact data). Coordinates up to 1e3; tolerance 1e-9 x magnitude.",
    design="5/C02"),
  "C05": dict(
    technique="TLA+ ArcF6 ('construct from the answer': ellipse + two parameter angles with rational cos/sin -> end points and the F.6.5 choice among the four candidate arcs) enumerated by TLC with invariants OnExpectedEllipse/StartAngleRight/EndAngleRight/LargeIffFlag; replayed through the Arc constructor and the path parser",
    text="Exhaustive over centres x radii x rotations (multiples of 90, Pythagorean, beyond +-360) x ordered pairs of 12 parameter angles x 4 flag pairs; radii too small by 2/10/1000 at an exact half turn (F.6.6), negative radii, zero radii (line: points, length, bbox), coincident end points. The real arc must start/end exactly at the points, have the expected centre and signed extent, pass 9 on_param points and report rx/ry/rotation describing the same ellipse.",
-   note="Trusted: TLC, ArcF6.tla, the on_param / implicit-ellipse comparators. Tolerance 1e-9 x size, 1e-6 where the centre is a square root of an input rounding error (exact half turns). Radius-to-chord ratios up to 1e3 only through the scaled family.",
+   note="Trusted: TLC, ArcF6.tla, the on_param / implicit-ellipse comparators. Tolerance 1e-9 x size, 1e-6 where the centre is a square root of an input rounding error (exact half turns). Radius-to-chord ratios up to 1e3 only through the scaled family. Every third case is repeated in another unit of length (1/4000 .. 1e5).",
    design="5/C05"),
  "C06": dict(
    technique="TLA+ Shapes (SVG 2 ch.10 equivalent paths, corner-radius auto/clamp table; invariants Connected, RadiiInRange) + PathOps geometry abstraction enumerated by TLC over shapes x transform classes; each built by 3 routes and decomposed 6 ways",
@@ -73,16 +73,16 @@ CHECKS = {
  "C08": dict(
    technique="TLA+ BBox: exact integer de Casteljau sampling with a second-derivative bracket for every 1-D Bezier control tuple, arc sides decided by rational sign tests with exact squared half extents, container union / stroke growth in rationals; enumerated by TLC and compared with bbox()",
    text="Exhaustive over all quadratic and cubic 1-D control tuples on 0..V (V=4 quick, 6 thorough) on either axis: any correct side must lie in [sample min - eps, sample min] (contains every sample, touched within eps <= 1.1e-3); lattice arcs (rotations x radii x start angles x extents x both directions, beyond a full turn) with each side equal to an end point or to centre +- sqrt(exact square); shapes, sub-paths, groups and nested groups x stroke painted/none/unset x widths x scales x transformed x with_stroke against the spec's union/grow.",
-   note="Trusted: TLC, BBox.tla, sqrt in the comparator. Tightness finer than eps for Beziers with irrational extrema is not decided. Use elements are not yet in the container table.",
+   note="Trusted: TLC, BBox.tla, sqrt in the comparator. Tightness finer than eps for Beziers with irrational extrema is not decided. Zero-extent arcs on a real ellipse and use / use-of-group containers are in the tables.",
    design="5/C08"),
  "C19": dict(
    technique="TLA+ ArcApprox: structural conversion contract on abstract paths (Connected, CountRight, EndsKept invariants) + concrete arc table enumerated by TLC; realised through as_cubic_curves/as_quad_curves/approximate_arcs_with_* and measured with the distance-to-ellipse comparator",
-   text="27 abstract paths (line / arc / zero-extent arc at 3 positions) x slice counts x 4 APIs: chain ends exactly at the arc's ends, joins exact, neighbours untouched, path connected, zero-extent arcs vanish; arc table (radii ratio 1..100, rotations, start angles, extents 0.02 rad .. exactly one turn .. 450 degrees, both directions) x position in a path x {default, 2x, 4x, n=1, error=0.02} x {cubic, quadratic}: joints on the ellipse, deviation <= 1e-3 / 1e-2 x larger radius at both defaults, non-increasing for finer subdivision.",
+   text="27 abstract paths (line / arc / zero-extent arc at 3 positions) x slice counts x 4 APIs: chain ends exactly at the arc's ends, joins exact, neighbours untouched, path connected, zero-extent arcs vanish; arc table (radii ratio 1..100, rotations, start angles, extents 0.02 rad .. exactly one turn .. 450 degrees, both directions) x position in a path x {default, 2x, 4x, n=1, error=0.02} x {cubic, quadratic}: joints on the ellipse, deviation <= 1e-3 / 1e-2 x larger radius at both defaults, non-increasing for finer subdivision; paths that begin with the arc (no move), open and closed.",
    note="Trusted: TLC, ArcApprox.tla, the Newton distance-to-ellipse comparator; the deviation is sampled at 13 (quick) or 33 (thorough) points per curve, not bounded analytically.",
    design="5/C19"),
  "C15": dict(
    technique="TLA+ ArcLen (rational total variation of collinear Beziers, Pythagorean polylines, quarter-turn circles as multiples of pi, Walk(t) by cumulative length fractions, query/edit history machine) enumerated by TLC; replayed into length()/point(); invariance laws evaluated on MC_C02's segment table",
-   text="Exhaustive over every quadratic/cubic 1-D control tuple on 0..V with rational critical points along (1,0) and (3,4) (cusps, zero length, coincident controls) x 8 maps (isometries, scalings) x reversal x error settings 1e-4/1e-6/1e-9; circles of 1..4 quarter turns; polyline words with moves walked at t = j/8 (also as Polyline shapes); every history of <= MaxOps queries and edits (point(t) must be a function of the current segments); for all segments incl. generic curves: length unchanged by rotation/reflection/translation/reversal, scaled by |s|, chord <= length <= control polygon, path length = sum; and length(error=1e-4/1e-6/1e-9) against the defining integral of the speed evaluated by quadrature from the spec's exact segment data. Also at coordinate magnitudes 1e5, 12345 and 1e-3, point walks of round shapes, scale-and-reify events in the history machine.",
+   text="Exhaustive over every quadratic/cubic 1-D control tuple on 0..V with rational critical points along (1,0) and (3,4) (cusps, zero length, coincident controls) x 8 maps (isometries, scalings) x reversal x error settings 1e-4/1e-6/1e-9; circles of 1..4 quarter turns; polyline words with moves walked at t = j/8 (also as Polyline shapes); every history of <= MaxOps queries and edits (point(t) must be a function of the current segments); for all segments incl. generic curves: length unchanged by rotation/reflection/translation/reversal, scaled by |s|, chord <= length <= control polygon, path length = sum; and length(error=1e-4/1e-6/1e-9) against the defining integral of the speed evaluated by quadrature from the spec's exact segment data. Also at coordinate magnitudes 1e5, 12345 and 1e-3, point walks of round shapes, scale-and-reify and reverse events in the history machine, perimeters of eccentric ellipse shapes against the integral, a fine request after a coarse one on the same path, and t next to 0, 1 and every corner of seeded polylines with irrational segment lengths.",
    note="Trusted: TLC, ArcLen.tla, Rat.tla, and for generic curves a 20-line Gauss-Legendre quadrature of the spec's definition (a numeric comparator, not a TLC verdict; own error estimate <= 1e-11). Known findings: collinear cubics with a cusp ignore the requested error; generic cubics / non-circular arcs accumulate per-piece errors (~0.15 L (e/L)^(2/3)).",
    design="5/C15"),
  "C03": dict(
@@ -92,8 +92,8 @@ CHECKS = {
    design="5/C03"),
  "C14": dict(
    technique="TLA+ DocPaint (CSS cascade: inline > rules by specificity then order > presentation attribute; inheritance; currentColor; opacity) plugged into DocCore; TLC enumerates source subsets, rule orders, chains, use, currentColor, opacity cases; each parsed and its fill/stroke/stroke_width compared",
-   text="Exhaustive: 3 properties x all 128 subsets of the 7 sources x 2 rule orders on one element; 4^3 x 2^3 chains of depth 3 x 5 ancestor transforms (incl. rotation, negative determinant); use of a styled definition (own > use > ancestor); currentColor x where color comes from x caller colour; fill-/stroke-opacity by attribute / inline / inheritance. Fill and stroke are compared as RGBA (alpha from the opacity), stroke_width as the declared width and the effective width sw * sqrt|det CTM|. Also vector-effect (non-scaling stroke), display as a cascaded property, opacity 0, zero stroke width, several rules for one selector, and generated paint documents with random style sheets whose cascade TLC evaluates.",
-   note="Trusted: TLC, DocPaint.tla, style-sheet text generation. vector-effect, descendant/attribute selectors, !important are not modelled. A transform that cannot be reified stays on the shape with the unscaled width: the effective width is what is compared then.",
+   text="Exhaustive: 3 properties x all 128 subsets of the 7 sources x 2 rule orders on one element; 4^3 x 2^3 chains of depth 3 x 5 ancestor transforms (incl. rotation, negative determinant); use of a styled definition (own > use > ancestor); currentColor x where color comes from x caller colour; fill-/stroke-opacity by attribute / inline / inheritance. Fill and stroke are compared as RGBA (alpha from the opacity), stroke_width as the declared width and the effective width sw * sqrt|det CTM|. Also vector-effect (non-scaling stroke), display as a cascaded property, opacity 0, zero stroke width, several rules for one selector, and generated paint documents (rect, circle, ellipse, line, polyline, polygon under scales, reflections, shears) with random style sheets - including type selectors that are substrings of other tag names - whose cascade TLC evaluates.",
+   note="Trusted: TLC, DocPaint.tla, style-sheet text generation. Descendant/attribute selectors, !important and a style element placed after the elements it styles are not modelled. A transform that cannot be reified stays on the shape with the unscaled width: the effective width is what is compared then.",
    design="5/C14"),
  "C10": dict(
    technique="TLA+ DocFault over DocCore (expected = rendering of the document with the faulty elements removed; invariant RemovedIsBalanced) enumerated by TLC over documents x fault placements; each faulty document parsed in the default error mode and the shapes outside the faulty elements compared",
